@@ -17,7 +17,8 @@
 (*   k = "bn"   v = <<>>, q = the blank node label                         *)
 (*   k = "lit"  v = classes of the lexical form,                           *)
 (*              q = ""      simple literal                                 *)
-(*                  "@en"   language-tagged                                *)
+(*                  "@en"   language-tagged ("@en-US": a tag with a subtag *)
+(*                          and upper case; tags compare ignoring case)    *)
 (*                  "^str"  typed xsd:string  (the same RDF term as q="")  *)
 (*                  "^int"  typed xsd:integer                              *)
 (*                  "^cus"  typed with a custom datatype IRI               *)
@@ -32,8 +33,9 @@
 (*     raw; Parse: a raw delimiter ends/breaks the token, XML normalises a *)
 (*     raw CR), one action per protocol step (Build, Serialize, Parse).    *)
 (*     TLC checks over the whole bounded universe that the reference meets *)
-(*     the contract, and that the Legacy variants (no escaping / blank     *)
-(*     labels regenerated per statement) do NOT (self-test).               *)
+(*     the contract, and that the Legacy variants (a serializer that       *)
+(*     escapes nothing, a reader that merges blank node labels, a reader   *)
+(*     that drops all-white-space content) do NOT (self-tests).            *)
 (* Known deviations of the real code are KF_C36_* operators below; each is *)
 (* identified by (format, character class, term position) and fixes the    *)
 (* outcome it explains.                                                    *)
@@ -81,53 +83,44 @@ Contract(T, f, res, out) ==
     ELSE res = "unbuildable"           \* not an RDF graph: nothing to round-trip; the constructors say so
 
 (***************************************************************************)
-(* Known deviations (enabled only when listed open).  Lits(T) etc. select  *)
-(* the term position a deviation is about.                                 *)
+(* Known deviation (enabled only when listed open in known_findings.json), *)
+(* identified by (format, character classes, term position):               *)
+(*                                                                         *)
+(* KF_C36_XmlWhitespaceOnlyLiteralEmptied - RDF/XML, literal in object     *)
+(* position whose lexical form is non-empty and consists only of XML white *)
+(* space (classes sp, lf, cr).  The formatter writes it as element content *)
+(* (correct RDF/XML); rio_xml's reader ignores a text event that is all    *)
+(* white space (parser.rs parse_text_event: `if !event.iter().all(         *)
+(* is_whitespace)`), so the property element has no text and the literal   *)
+(* comes back EMPTY, language tag / datatype kept.  Every other term comes *)
+(* back unchanged.                                                         *)
 (***************************************************************************)
 LitsOf(T) == {t.o : t \in {u \in T : u.o.k = "lit"}}
-PredsOf(T) == {t.p : t \in T}
-SubstClass(v, from, to) == [i \in DOMAIN v |-> IF v[i] = from THEN to ELSE v[i]]
-AllSpace(v) == v # <<>> /\ Classes(v) = {"sp"}
-
-\* RDF/XML, literal position: the formatter writes a raw CR into element content (quick-xml escapes only < > & ' "),
-\* and the XML reader's line-end handling gives it back as LF: every cr of a literal comes back as lf, nothing else changes.
-XmlCrAsLf(T) == {IF t.o.k = "lit" THEN [t EXCEPT !.o.v = SubstClass(t.o.v, "cr", "lf")] ELSE t : t \in T}
-KF_C36_XmlLiteralCrBecomesLf(T, f, res, out) ==
+XmlSpace == {"sp", "lf", "cr"}
+WhitespaceOnly(v) == v # <<>> /\ Classes(v) \subseteq XmlSpace
+Emptied(T) == {IF t.o.k = "lit" /\ WhitespaceOnly(t.o.v) THEN [t EXCEPT !.o.v = <<>>] ELSE t : t \in T}
+KF_C36_XmlWhitespaceOnlyLiteralEmptied(T, f, res, out) ==
     /\ Buildable(T) /\ f = "xml"
-    /\ \E x \in LitsOf(T) : "cr" \in Classes(x.v)
-    /\ res = "ok" /\ Iso(XmlCrAsLf(Canon(T)), out)
+    /\ \E x \in LitsOf(T) : WhitespaceOnly(x.v)
+    /\ res = "ok" /\ Iso(Emptied(Canon(T)), out)
 
-\* RDF/XML, literal position: a literal made of white space only is written as element content and the reader
-\* (trim_text) returns the empty literal.
-XmlTrimmed(T) == {IF t.o.k = "lit" /\ AllSpace(t.o.v) THEN [t EXCEPT !.o.v = <<>>] ELSE t : t \in T}
-KF_C36_XmlWhitespaceLiteralEmptied(T, f, res, out) ==
-    /\ Buildable(T) /\ f = "xml"
-    /\ \E x \in LitsOf(T) : AllSpace(x.v)
-    /\ res = "ok" /\ Iso(XmlTrimmed(Canon(T)), out)
-
-\* RDF/XML, literal position, control class: XML 1.0 cannot carry U+0001 (neither raw nor as a character reference);
-\* the formatter writes it raw and the reader refuses the document.
-KF_C36_XmlControlCharRefused(T, f, res, out) ==
-    /\ Buildable(T) /\ f = "xml"
-    /\ \E x \in LitsOf(T) : "ct" \in Classes(x.v)
-    /\ res = "parse_err"
-
-\* RDF/XML, predicate position: a predicate IRI that does not end in an XML NCName (empty tail, or a tail ending in
-\* a character that is not a name character) has no element name; the formatter emits a document the reader refuses
-\* or reads back as a different IRI.
-NoNameTail(v) == v = <<>> \/ v[Len(v)] \notin {"pl", "as"}
-KF_C36_XmlPredicateWithoutLocalName(T, f, res, out) ==
-    /\ Buildable(T) /\ f = "xml"
-    /\ \E p \in PredsOf(T) : NoNameTail(p.v)
-    /\ res \in {"parse_err", "ser_err"}
+\* an observed round trip is explained by the set D of open deviations: D = {} is the contract itself
+Explained(T, f, res, out, D) ==
+    \/ D = {} /\ Contract(T, f, res, out)
+    \/ D = {"KF_C36_XmlWhitespaceOnlyLiteralEmptied"} /\ KF_C36_XmlWhitespaceOnlyLiteralEmptied(T, f, res, out)
 
 (***************************************************************************)
 (* 2. Reference design: token-level transducers, one action per step.      *)
+(*    A serialized term carries TOKENS: a class written raw, or its        *)
+(*    escaped form (ECHAR in N-Triples/Turtle, entity / character          *)
+(*    reference in XML).  It says which classes each grammar cannot carry  *)
+(*    raw; it is one design that meets the contract, not the only one (the *)
+(*    real reader, for instance, also accepts a raw CR in XML content).    *)
 (***************************************************************************)
 VARIABLES stage,    \* "new" -> "built" -> "serialized" -> "done"
           graph,    \* the graph handed to the serializer (a set of triples)
           fmt,
-          doc,      \* the serialized document: a set of statements whose terms carry TOKEN sequences, or "error"
+          doc,      \* the serialized document: a set of statements whose terms carry token sequences
           res, out  \* outcome as the contract sees it
 rvars == <<stage, graph, fmt, doc, res, out>>
 
@@ -136,23 +129,19 @@ RInit == stage = "new" /\ graph = {} /\ fmt = "nt" /\ doc = {} /\ res = "" /\ ou
 \* what the grammar of each format cannot carry raw inside a literal / an IRI reference
 LitMustEscape(f) == IF f = "xml" THEN {"lt", "am", "cr"} ELSE {"qu", "bs", "lf", "cr"}
 IriMustEscape(f) == IF f = "xml" THEN {"am"} ELSE {}          \* an IRI sits in an XML attribute: & must be &amp;
-Unwritable(f) == IF f = "xml" THEN {"ct"} ELSE {}             \* no XML 1.0 notation at all
-EscTok(c) == "\\" \o c                                          \* the escaped form of class c (ECHAR / entity / char ref)
+Escapable == {"qu", "bs", "lf", "cr", "lt", "am"}
+EscTok(c) == "\\" \o c                                          \* the escaped form of class c
 Esc(v, must) == [i \in DOMAIN v |-> IF v[i] \in must THEN EscTok(v[i]) ELSE v[i]]
-\* the reader: an escaped token gives its class back; a raw token that the grammar cannot carry breaks the term
-Unesc(v) == [i \in DOMAIN v |-> IF \E c \in {"qu", "bs", "lf", "cr", "lt", "am"} : v[i] = EscTok(c)
-                                 THEN CHOOSE c \in {"qu", "bs", "lf", "cr", "lt", "am"} : v[i] = EscTok(c) ELSE v[i]]
-Broken(v, must) == \E i \in DOMAIN v : v[i] \in must
+\* the reader: an escaped token gives its class back
+Unesc(v) == [i \in DOMAIN v |-> IF \E c \in Escapable : v[i] = EscTok(c) THEN CHOOSE c \in Escapable : v[i] = EscTok(c) ELSE v[i]]
+\* raw tokens that break a term when read back: string delimiters / escape introducers of the format
+LitBreaks(f) == IF f = "xml" THEN {"lt", "am"} ELSE {"qu", "bs", "lf", "cr"}
+Broken(v, bad) == \E i \in DOMAIN v : v[i] \in bad
 
 SerTerm(t, f, esc) ==
     IF t.k = "bn" THEN t
     ELSE IF t.k = "iri" THEN [t EXCEPT !.v = IF esc THEN Esc(t.v, IriMustEscape(f)) ELSE t.v]
     ELSE [CanonTerm(t) EXCEPT !.v = IF esc THEN Esc(t.v, LitMustEscape(f)) ELSE t.v]
-
-\* a predicate needs an element name in RDF/XML
-Expressible(T, f) ==
-    /\ \A x \in LitsOf(T) : Classes(x.v) \cap Unwritable(f) = {}
-    /\ f = "xml" => \A p \in PredsOf(T) : ~NoNameTail(p.v)
 
 Build(T, f) ==
     /\ stage = "new"
@@ -164,42 +153,36 @@ Build(T, f) ==
 \* esc = TRUE: the reference; esc = FALSE: LegacySerialize (writes every class raw) - self-test only
 SerializeWith(esc) ==
     /\ stage = "built"
-    /\ IF Expressible(graph, fmt)
-       THEN /\ doc' = {Tr(SerTerm(t.s, fmt, esc), SerTerm(t.p, fmt, esc), SerTerm(t.o, fmt, esc)) : t \in graph}
-            /\ stage' = "serialized" /\ res' = res
-       ELSE doc' = {} /\ stage' = "done" /\ res' = "ser_err"
-    /\ UNCHANGED <<graph, fmt, out>>
+    /\ doc' = {Tr(SerTerm(t.s, fmt, esc), SerTerm(t.p, fmt, esc), SerTerm(t.o, fmt, esc)) : t \in graph}
+    /\ stage' = "serialized"
+    /\ UNCHANGED <<graph, fmt, res, out>>
 Serialize == SerializeWith(TRUE)
 LegacySerialize == SerializeWith(FALSE)
 
-ParseTerm(t, f) ==
-    IF t.k = "bn" THEN t ELSE [t EXCEPT !.v = Unesc(t.v)]
-\* raw tokens that break a term when read back: string delimiters/escape introducers of the format
-LitBreaks(f) == IF f = "xml" THEN {"lt", "am"} ELSE {"qu", "bs", "lf", "cr"}
 TermBroken(t, f) ==
     \/ t.k = "iri" /\ Broken(t.v, IriMustEscape(f))
     \/ t.k = "lit" /\ Broken(t.v, LitBreaks(f))
-\* XML readers normalise a raw CR of element content to LF
-Normalise(t, f) == IF f = "xml" /\ t.k = "lit" THEN [t EXCEPT !.v = SubstClass(t.v, "cr", "lf")] ELSE t
-\* the reader may relabel blank nodes with any injective map (keep = FALSE: LegacyParse merges all labels into one)
-ParseWith(keep) ==
+\* a conforming XML reader normalises a raw CR of element content to LF
+Normalise(t, f) == IF f = "xml" /\ t.k = "lit" THEN [t EXCEPT !.v = [i \in DOMAIN t.v |-> IF t.v[i] = "cr" THEN "lf" ELSE t.v[i]]] ELSE t
+\* mode "ws": LegacyParse that ignores all-white-space element content (the open finding's design-level witness)
+DropWs(t, f, mode) == IF mode = "ws" /\ f = "xml" /\ t.k = "lit" /\ WhitespaceOnly(Unesc(t.v)) THEN [t EXCEPT !.v = <<>>] ELSE t
+ParseTerm(t, f, mode) == IF t.k = "bn" THEN t ELSE DropWs([Normalise(t, f) EXCEPT !.v = Unesc(@)], f, mode)
+\* the reader may relabel blank nodes with any injective map (mode "merge": LegacyParse gives every blank node one label)
+ParseWith(mode) ==
     /\ stage = "serialized"
     /\ IF \E t \in doc : TermBroken(t.s, fmt) \/ TermBroken(t.p, fmt) \/ TermBroken(t.o, fmt)
        THEN res' = "parse_err" /\ out' = {}
        ELSE /\ res' = "ok"
-            /\ \E labels \in [Blanks(doc) -> {"g1", "g2", "g3", "g4"}] :
-                 /\ keep => Injective(labels)
-                 /\ ~keep => \A b \in DOMAIN labels : labels[b] = "g1"
-                 /\ out' = Rename({Tr(ParseTerm(Normalise(t.s, fmt), fmt), ParseTerm(Normalise(t.p, fmt), fmt),
-                                      ParseTerm(Normalise(t.o, fmt), fmt)) : t \in doc}, labels)
+            /\ \E labels \in [Blanks(doc) -> {"g1", "g2", "g3"}] :
+                 /\ mode # "merge" => Injective(labels)
+                 /\ mode = "merge" => \A b \in DOMAIN labels : labels[b] = "g1"
+                 /\ out' = Rename({Tr(ParseTerm(t.s, fmt, mode), ParseTerm(t.p, fmt, mode), ParseTerm(t.o, fmt, mode)) : t \in doc}, labels)
     /\ stage' = "done"
     /\ UNCHANGED <<graph, fmt, doc>>
-Parse == ParseWith(TRUE)
-LegacyParse == ParseWith(FALSE)
+Parse == ParseWith("")
+LegacyParse(mode) == ParseWith(mode)
 
-\* the reference design meets the contract wherever the format can express the graph at all
-RefMeetsContract ==
-    stage = "done" => IF Buildable(graph) /\ ~Expressible(graph, fmt) THEN res = "ser_err"
-                      ELSE Contract(graph, fmt, res, out)
+\* the reference design meets the contract on every graph of the universe
+RefMeetsContract == stage = "done" => Contract(graph, fmt, res, out)
 IsoReflexive == stage # "new" => Iso(Canon(graph), Canon(graph))
 =============================================================================
